@@ -63,7 +63,7 @@ pub fn run(ctx: &Ctx) {
         let tx = txjson::template(kind, wc); let mut f = txjson::tx_fields(&tx, Spell::Auto); txjson::set(&mut f, field, Some(lit.clone()));
         let text = J::Obj(f).reordered(i % 3).to_text();
         // legacy chainId: null means "no chain id"; chain ids whose v overflows 256 bits are C17's business
-        let class: Class<Option<Nat>> = if field == "chainId" && kind == Kind::Legacy && *lit == J::Null { Class::Accept(None) } else { classify_ranged(lit, 256, false).map(|v| Some(v.mag)) };
+        let class: Class<Option<Nat>> = if field == "chainId" && kind == Kind::Legacy && *lit == J::Null { Class::Unc(None) /* null may mean "no chain id" or be refused: only the recipient's null is defined */ } else { classify_ranged(lit, 256, false).map(|v| Some(v.mag)) };
         let class = match class { Class::Accept(Some(v)) | Class::Unc(Some(v)) if field == "chainId" && kind == Kind::Legacy && v > Nat::pow2(255).sub(&Nat::from_u64(19)) => { ctx.eval("legacy-chain-id-beyond-v-range:skipped"); return; } c => c };
         let slot = format!("{}:{field}", match kind { Kind::Legacy => "legacy", Kind::Eip2930 => "eip2930", Kind::Eip1559 => "eip1559" });
         // the violation signature names the literal class; the field slot is part of the observation class and of the message
